@@ -41,6 +41,13 @@ func Creator(separator rune) func(ctx context.Context, name string, options map[
 			}
 			fieldNames = make([]string, len(row))
 			copy(fieldNames, row)
+			seen := make(map[string]bool, len(fieldNames))
+			for _, fieldName := range fieldNames {
+				if seen[fieldName] {
+					return nil, physical.Schema{}, fmt.Errorf("duplicate column name in csv header: '%s'", fieldName)
+				}
+				seen[fieldName] = true
+			}
 		}
 
 		fields := make([]octosql.Type, len(fieldNames))
